@@ -21,6 +21,7 @@ TraceNext ==
   \/ Is("Drop") /\ Drop
   \/ Is("Slice") /\ Slice(Ev.lenp, Ev.capp)
   \/ Is("FreeShared") /\ FreeWhileShared
+  \/ Is("Status") /\ Status(Ev.driver_ok, Ev.reset)
 
 TraceSpec == TraceInit /\ [][TraceNext]_tvars
 
